@@ -16,7 +16,7 @@ structure ProgCode (C : Code) (P : Prog) : Prop where
 
 theorem tableFrom_lookup (l : List FuncDecl) (k : Nat) (f : String) (d : FuncDecl)
     (h : l.find? (fun d => d.name == f) = some d) :
-    ∃ i, l[i]? = some d ∧ (tableFrom l k).lookup f = some (k + i, if d.hasResult then 1 else 0) := by
+    ∃ i, l[i]? = some d ∧ (tableFrom l k).lookup f = some (k + i, d.nres) := by
   induction l generalizing k with
   | nil => simp at h
   | cons a r ih =>
@@ -39,7 +39,7 @@ theorem tableFrom_lookup (l : List FuncDecl) (k : Nat) (f : String) (d : FuncDec
       omega
 
 theorem find_table {P : Prog} {f : String} {d : FuncDecl} (h : P.find f = some d) :
-    ∃ i, P[i]? = some d ∧ (funcTable P).lookup f = some (i, if d.hasResult then 1 else 0) := by
+    ∃ i, P[i]? = some d ∧ (funcTable P).lookup f = some (i, d.nres) := by
   obtain ⟨i, hi, hl⟩ := tableFrom_lookup P 0 f d h
   exact ⟨i, hi, by simpa [funcTable] using hl⟩
 
@@ -63,6 +63,22 @@ def NoDecl : Stmt → Prop
 
 def IsCall : Expr → Prop
   | .call0 _ | .call1 _ _ | .call2 _ _ _ | .call3 _ _ _ _ => True
+  | _ => False
+
+/-- the right-hand side of `x, y := f(…)`. -/
+def IsCall2 : Expr → Prop
+  | .call0 _ | .call1 _ _ | .call2 _ _ _ => True
+  | _ => False
+
+/-- an expression that cannot panic: no call, no `/`, no `%`. -/
+def NoPanic : Expr → Prop
+  | .lit _ | .tt | .ff | .var _ => True
+  | .paren e | .neg e | .not e => NoPanic e
+  | .bin op a b => op ≠ .div ∧ op ≠ .mod ∧ NoPanic a ∧ NoPanic b
+  | _ => False
+
+def IsBoolLit : Expr → Prop
+  | .tt | .ff => True
   | _ => False
 
 /-- what `Allowed` knows about the enclosing `for` / `switch` statements, innermost first: (Go label, is a `for`). -/
@@ -98,9 +114,15 @@ mutual
     (the only labels Go lets `break`/`continue` refer to); a `switch` may be nested in at most two others (a fourth
     stack item would be dropped with PACK, which MiniVm does not execute); `default` comes last (the clause chain
     ends with it or with `skip`: a `default` in another position is the known finding switch-early-default);
-    `fallthrough` in the last clause is not Go (and crashes the compiler).  Excluded: a declaring post statement. -/
+    `fallthrough` in the last clause is not Go (and crashes the compiler).  Excluded: a declaring post statement.
+    `return e1, e2`: the compiler evaluates `e2` BEFORE `e1` (known finding return-operands-reversed); in this pure
+    fragment that is invisible when both evaluate, so the success theorems do not use the condition, but a panic of
+    `e1` would be preceded on the VM by whatever `e2` does — the carve-out is that `e1` cannot panic (no call, `/`,
+    `%`) or `e2` is `true` / `false` (the `v, ok` idiom).  `x, y := e`: `e` is a call with at most two arguments. -/
 def Allowed (ls : Sigs) : Stmt → Prop
   | .skip | .inc _ | .dec _ | .define _ _ | .assign _ _ | .discard _ | .panicS _ | .ret _ => True
+  | .ret2 e1 e2 => NoPanic e1 ∨ IsBoolLit e2
+  | .define2 _ _ e => IsCall2 e
   | .seq a b => Allowed ls a ∧ Allowed ls b
   | .opAssign _ op _ => Strict op
   | .varDecl _ _ none => True
@@ -133,7 +155,7 @@ theorem allowedCl_chain : ∀ (cl : Stmt) (ls : Sigs), AllowedCl ls cl → IsCha
   | .caseS _ _ _ _ rest, ls, h => allowedCl_chain rest ls (by simp only [AllowedCl] at h; exact h.2.1)
   | .seq _ _, _, h | .define _ _, _, h | .assign _ _, _, h | .opAssign _ _ _, _, h | .inc _, _, h | .dec _, _, h
   | .varDecl _ _ _, _, h | .exprStmt _, _, h | .discard _, _, h | .panicS _, _, h | .ite _ _ _ _, _, h
-  | .loop _ _ _ _, _, h | .ret _, _, h | .brk, _, h | .cont, _, h | .block _, _, h | .labeled _ _, _, h
+  | .loop _ _ _ _, _, h | .ret _, _, h | .ret2 _ _, _, h | .define2 _ _ _, _, h | .brk, _, h | .cont, _, h | .block _, _, h | .labeled _ _, _, h
   | .brkL _, _, h | .contL _, _, h | .switchS _ _ _, _, h => by simp [AllowedCl] at h
 
 theorem noDecl_allowed {p : Stmt} (h : NoDecl p) (ls : Sigs) : Allowed ls p := by
@@ -591,7 +613,7 @@ def dropEnv (env : Env) (d : Nat) : Env := { env with frames := env.frames.drop 
     the frames of that statement's scope depth (`scLen`). -/
 def StmtPostF (cx : Ctx) (C : Code) (σ : State) (endpc : Nat) (scN scA : Scopes) (lp : LoopCtx) : SOut → Prop
   | .norm env' => ∃ σ', Reach C σ σ' ∧ σ'.pc = endpc ∧ Same σ σ' ∧ VarsRel cx scN env' σ'.locals σ'.args
-  | .ret v => ∃ σ', Reach C σ σ' ∧ C[σ'.pc]? = some (.ins .ret) ∧ σ'.stack = v.toList ++ σ.stack.drop (totalSz lp) ∧
+  | .ret v => ∃ σ', Reach C σ σ' ∧ C[σ'.pc]? = some (.ins .ret) ∧ σ'.stack = v ++ σ.stack.drop (totalSz lp) ∧
       σ'.frames = σ.frames
   | .brk l env' => ∃ dr e, findBrk l lp 0 = some (dr, e) ∧ ∀ bp, findLabel C e.endL = some bp →
       ∃ σ', Reach C σ σ' ∧ σ'.pc = bp ∧ SameD dr σ σ' ∧
@@ -700,7 +722,7 @@ theorem post_pop {cx : Ctx} {C : Code} {σ : State} {e1 e2 : Nat} {scN scN' scA 
     (StmtPostF cx C σ e1 scN ([] :: scA) lp (.cont l env') → StmtPostF cx C σ e2 scN' scA lp (.cont l env'.pop)) :=
   post_pop' hd rfl rfl
 
-theorem post_ret {cx : Ctx} {C : Code} {σ : State} {e1 e2 : Nat} {scN scN' scA scA' : Scopes} {lp : LoopCtx} {v : Option Val}
+theorem post_ret {cx : Ctx} {C : Code} {σ : State} {e1 e2 : Nat} {scN scN' scA scA' : Scopes} {lp : LoopCtx} {v : List Val}
     (h : StmtPostF cx C σ e1 scN scA lp (.ret v)) : StmtPostF cx C σ e2 scN' scA' lp (.ret v) := h
 
 /-- the same for a statement that follows others in its block (they may have declared into the innermost scope). -/
@@ -901,6 +923,49 @@ theorem callS_post {P : Prog} {C : Code} {cx : Ctx} {fuel : Nat} {σ : State} {c
   simp [dropN_length, Nat.add_assoc]
   omega
 
+/-- a call that delivers two values (`x, y := f(…)`): the first result is on top. -/
+def Call2OK (P : Prog) (C : Code) (fuel : Nat) : Prop :=
+  ∀ (f : String) (vs : List Val) (v w : Val) (σ : State) (rest : List Val),
+    callF2 fuel P f vs = .ok (v, w) → σ.stack = vs ++ rest →
+    C[σ.pc]? = some (.ins (.call (fnLabel P f))) → σ.frames.length + fuel < 1024 →
+    Reach C σ { σ with pc := σ.pc + 1, stack := v :: w :: rest }
+
+/-- `x, y := f(…)` from the evaluated arguments on: CALL, PUSH2 REVERSEN, store `y` (new slot), store `x` (new slot). -/
+theorem define2_post {P : Prog} {C : Code} {cx : Ctx} {fuel : Nat} {σ : State} {c : Code} {f : String} {vs : List Val} {env : Env}
+    {st : St} {x y : String} {v w : Val} {scA : Scopes} {lp : LoopCtx}
+    (htab : cx.funcs = funcTable P) (ihC2 : Call2OK P C fuel)
+    (hp : Placed C σ.pc (c ++ [.ins (.call (cx.func f).1)] ++ [.ins (.pushInt 2), .ins .reverseN] ++
+      storeVar cx (st.newLocal y).scopes y ++ storeVar cx ((st.newLocal y).newLocal x).scopes x))
+    (hr : Reach C σ { σ with pc := σ.pc + c.length, stack := vs ++ σ.stack })
+    (hcall : callF2 fuel P f vs = .ok (v, w)) (hdep : σ.frames.length + fuel < 1024)
+    (hrel : VarsRel cx st.scopes env σ.locals σ.args) (hwf : Wf st) (hcnt : st.cnt + 2 ≤ σ.locals.length) :
+    StmtPostF cx C σ (σ.pc + (c ++ [Item.ins (.call (cx.func f).1)] ++ [Item.ins (.pushInt 2), Item.ins .reverseN] ++
+      storeVar cx (st.newLocal y).scopes y ++ storeVar cx ((st.newLocal y).newLocal x).scopes x).length)
+      ((st.newLocal y).newLocal x).scopes scA lp (.norm ((env.declare y w).declare x v)) := by
+  have hf : C[σ.pc + c.length]? = some (.ins (.call (cx.func f).1)) := hp.left.left.left.right.head
+  rw [ctx_func htab] at hf
+  have hcr := ihC2 f vs v w { σ with pc := σ.pc + c.length, stack := vs ++ σ.stack } σ.stack hcall rfl hf hdep
+  have hpp : Placed C (σ.pc + c.length + 1) [Item.ins (.pushInt 2), .ins .reverseN] :=
+    hp.left.left.right.cast (by simp [Nat.add_assoc])
+  have h1 := run_data (C := C) (σ := { σ with pc := σ.pc + c.length + 1, stack := v :: w :: σ.stack })
+    (op := .pushInt 2) (stk := .int 2 :: v :: w :: σ.stack) (loc := σ.locals) (ar := σ.args) hpp.head rfl (by simp [stepData])
+  have h2 := run_data (C := C) (σ := { σ with pc := σ.pc + c.length + 1 + 1, stack := .int 2 :: v :: w :: σ.stack })
+    (op := .reverseN) (stk := w :: v :: σ.stack) (loc := σ.locals) (ar := σ.args) hpp.tail.head rfl
+    (by simp [stepData, Val.toInt?])
+  have hcy : st.cnt < σ.locals.length := by omega
+  obtain ⟨σ3, hr3, hpc3, hst3, hfr3, hin3, hl3, hrel3⟩ := declare_step (cx := cx) (st := st) (env := env) (C := C)
+    (σ := { σ with pc := σ.pc + c.length + 1 + 1 + 1, stack := w :: v :: σ.stack })
+    (x := y) (v := w) (rest := v :: σ.stack) hrel hwf hcy (hp.left.right.cast (by simp [Nat.add_assoc])) rfl
+  have hcx : (st.newLocal y).cnt < σ3.locals.length := by rw [newLocal_cnt, hl3]; simp; omega
+  obtain ⟨σ4, hr4, hpc4, hst4, hfr4, hin4, hl4, hrel4⟩ := declare_step (cx := cx) (st := st.newLocal y) (env := env.declare y w) (C := C)
+    (σ := σ3) (x := x) (v := v) (rest := σ.stack) hrel3 (wf_newLocal hwf y) hcx
+    (hp.right.cast (by rw [hpc3]; simp [Nat.add_assoc]; omega)) hst3
+  refine ⟨σ4, hr.trans (hcr.trans (h1.trans (h2.trans (hr3.trans hr4)))), ?_, ⟨hst4, ?_, ?_, ?_⟩, hrel4⟩
+  · rw [hpc4, hpc3]; simp [Nat.add_assoc]; omega
+  · rw [hfr4, hfr3]
+  · rw [hin4, hin3]
+  · rw [hl4, hl3]
+
 theorem noDecl_state {cx : Ctx} {lp : LoopCtx} {p : Stmt} (h : NoDecl p) (st : St) :
     (compS cx lp p st).2.scopes = st.scopes ∧ (compS cx lp p st).2.cnt = st.cnt := by
   cases p <;> simp [NoDecl] at h <;> simp [compS]
@@ -951,12 +1016,12 @@ theorem allowed_labelsOK : ∀ (s : Stmt) (ls : Sigs), Allowed ls s → LabelsOK
   | .caseS _ _ _ _ _, _, h => by simp [Allowed] at h
   | .defaultS _, _, h => by simp [Allowed] at h
   | .skip, _, _ | .define _ _, _, _ | .assign _ _, _, _ | .opAssign _ _ _, _, _ | .inc _, _, _ | .dec _, _, _
-  | .varDecl _ _ _, _, _ | .exprStmt _, _, _ | .discard _, _, _ | .panicS _, _, _ | .ret _, _, _ | .brk, _, _ | .cont, _, _
+  | .varDecl _ _ _, _, _ | .exprStmt _, _, _ | .discard _, _, _ | .panicS _, _, _ | .ret _, _, _ | .ret2 _ _, _, _ | .define2 _ _ _, _, _ | .brk, _, _ | .cont, _, _
   | .brkL _, _, _ | .contL _, _, _ => trivial
   | .labeled _ .skip, _, h | .labeled _ (.seq _ _), _, h | .labeled _ (.define _ _), _, h | .labeled _ (.assign _ _), _, h
   | .labeled _ (.opAssign _ _ _), _, h | .labeled _ (.inc _), _, h | .labeled _ (.dec _), _, h | .labeled _ (.varDecl _ _ _), _, h
   | .labeled _ (.exprStmt _), _, h | .labeled _ (.discard _), _, h | .labeled _ (.panicS _), _, h | .labeled _ (.ite _ _ _ _), _, h
-  | .labeled _ (.ret _), _, h | .labeled _ .brk, _, h | .labeled _ .cont, _, h | .labeled _ (.block _), _, h
+  | .labeled _ (.ret _), _, h | .labeled _ (.ret2 _ _), _, h | .labeled _ (.define2 _ _ _), _, h | .labeled _ .brk, _, h | .labeled _ .cont, _, h | .labeled _ (.block _), _, h
   | .labeled _ (.labeled _ _), _, h | .labeled _ (.brkL _), _, h | .labeled _ (.contL _), _, h
   | .labeled _ (.caseS _ _ _ _ _), _, h | .labeled _ (.defaultS _), _, h => by simp [Allowed] at h
 theorem allowedCl_labelsOK : ∀ (cl : Stmt) (ls : Sigs), AllowedCl ls cl → LabelsOK cl
@@ -965,7 +1030,7 @@ theorem allowedCl_labelsOK : ∀ (cl : Stmt) (ls : Sigs), AllowedCl ls cl → La
   | .caseS _ _ b _ rest, ls, h => by simp only [AllowedCl] at h; exact ⟨allowed_labelsOK b ls h.1, allowedCl_labelsOK rest ls h.2.1⟩
   | .seq _ _, _, h | .define _ _, _, h | .assign _ _, _, h | .opAssign _ _ _, _, h | .inc _, _, h | .dec _, _, h
   | .varDecl _ _ _, _, h | .exprStmt _, _, h | .discard _, _, h | .panicS _, _, h | .ite _ _ _ _, _, h
-  | .loop _ _ _ _, _, h | .ret _, _, h | .brk, _, h | .cont, _, h | .block _, _, h | .labeled _ _, _, h
+  | .loop _ _ _ _, _, h | .ret _, _, h | .ret2 _ _, _, h | .define2 _ _ _, _, h | .brk, _, h | .cont, _, h | .block _, _, h | .labeled _ _, _, h
   | .brkL _, _, h | .contL _, _, h | .switchS _ _ _, _, h => by simp [AllowedCl] at h
 end
 
@@ -1018,6 +1083,12 @@ theorem compS_noLabel (cx : Ctx) : ∀ (s : Stmt) (lp : LoopCtx) (st : St), Labe
     have h3 : (forSt3 cx lp init cond body st).nextLabel = none := ihb (forEnt st :: lp) (forStB cx lp init cond st) hl.2.2 (Or.inl h1)
     exact ihp lp _ hl.2.1 (Or.inl h3)
   | ret e => intro lp st _ h; rcases h with h | h; (cases e <;> exact h); exact h.elim
+  | ret2 e1 e2 => intro lp st _ h; rcases h with h | h; exact h; exact h.elim
+  | define2 x y e =>
+    intro lp st _ h
+    rcases h with h | h
+    · simp only [compS]; unfold St.newLocal; cases st.scopes <;> exact h
+    · exact h.elim
   | brk => intro lp st _ h; rcases h with h | h; exact h; exact h.elim
   | cont => intro lp st _ h; rcases h with h | h; exact h; exact h.elim
   | block body ih =>
@@ -1232,7 +1303,7 @@ set_option maxHeartbeats 1000000 in
 theorem stmtFOK_succ (P : Prog) (C : Code) (cx : Ctx) (fuel : Nat)
     (hn : (labelsOf C).Nodup) (htab : cx.funcs = funcTable P)
     (ihE : ∀ sc env, ExprFOK P C cx sc env fuel) (ih : StmtFOK P C cx fuel) (ihL : LoopOK P C cx fuel)
-    (ihSw : SwitchOK P C cx fuel) (ihCS : CallSOK P C fuel) : StmtFOK P C cx (fuel + 1) := by
+    (ihSw : SwitchOK P C cx fuel) (ihCS : CallSOK P C fuel) (ihC2 : Call2OK P C fuel) : StmtFOK P C cx (fuel + 1) := by
   intro s lp ls st env σ out hal hinv hd hex hp hrel hwf hcnt hdep
   have hdep' : σ.frames.length + fuel < 1024 := by omega
   have hdI : Deepish lp st.scopes.length := hd.elim Deep.ish (·.2)
@@ -1387,6 +1458,138 @@ theorem stmtFOK_succ (P : Prog) (C : Code) (cx : Ctx) (fuel : Nat)
       | overflow => rw [hv] at hex; simp at hex
       | stuck => rw [hv] at hex; simp at hex
       | timeout => rw [hv] at hex; simp at hex
+  | ret2 e1 e2 =>
+    have hdrop := run_dropItems (C := C) (σ := σ) hinv.few hinv.stk
+    simp only [exec] at hex
+    simp only [compS] at hp ⊢
+    cases hv : evalE fuel P env e1 with
+    | ok v =>
+      rw [hv] at hex
+      simp only at hex
+      cases hw : evalE fuel P env e2 with
+      | ok w =>
+        rw [hw] at hex
+        simp only at hex
+        cases hex
+        rcases hc2 : compE cx st.scopes e2 .val st.nl with ⟨c2, nl1⟩
+        rcases hc1 : compE cx st.scopes e1 .val nl1 with ⟨c1, nl2⟩
+        simp only [hc2, hc1] at hp ⊢
+        have hr0 := hdrop hp.left.left.left
+        -- the VM evaluates the second operand first; both evaluations are pure (same environment, same slots)
+        have hr2 := (ihE st.scopes env) e2 .val st.nl
+          { σ with pc := σ.pc + (dropItems (totalSz lp)).length, stack := σ.stack.drop (totalSz lp) } w hw
+          (by rw [hc2]; exact hp.left.left.right) hrel hdep'
+        rw [hc2] at hr2
+        simp only [Post] at hr2
+        have hr1 := (ihE st.scopes env) e1 .val nl1
+          { σ with pc := σ.pc + (dropItems (totalSz lp)).length + c2.length, stack := w :: σ.stack.drop (totalSz lp) } v hv
+          (by rw [hc1]; exact hp.left.right.cast (by simp [Nat.add_assoc])) hrel hdep'
+        rw [hc1] at hr1
+        simp only [Post] at hr1
+        exact ⟨_, hr0.trans (hr2.trans hr1), by simpa [Nat.add_assoc] using hp.right.head, by simp, rfl⟩
+      | panic => rw [hw] at hex; simp at hex
+      | overflow => rw [hw] at hex; simp at hex
+      | stuck => rw [hw] at hex; simp at hex
+      | timeout => rw [hw] at hex; simp at hex
+    | panic => rw [hv] at hex; simp at hex
+    | overflow => rw [hv] at hex; simp at hex
+    | stuck => rw [hv] at hex; simp at hex
+    | timeout => rw [hv] at hex; simp at hex
+  | define2 x y e =>
+    have hwf' : ∀ n, Wf { st with nl := n } := fun n => wf_nl hwf n
+    have hcnt2 : ∀ n, ({ st with nl := n } : St).cnt + 2 ≤ σ.locals.length := by
+      intro n
+      simp only [compS, newLocal_cnt] at hcnt
+      exact hcnt
+    cases e with
+    | call0 f =>
+      simp only [exec] at hex
+      simp only [compS, compE, withMode] at hp ⊢
+      cases hc : callF2 fuel P f [] with
+      | ok r =>
+        obtain ⟨v, w⟩ := r
+        rw [hc] at hex
+        simp only [declare2] at hex
+        cases hex
+        exact define2_post (c := []) (vs := []) htab ihC2 (by simpa using hp) (by simpa using Reach.refl C σ) hc hdep' hrel (hwf' _) (hcnt2 _)
+      | panic => rw [hc] at hex; simp [declare2] at hex
+      | overflow => rw [hc] at hex; simp [declare2] at hex
+      | stuck => rw [hc] at hex; simp [declare2] at hex
+      | timeout => rw [hc] at hex; simp [declare2] at hex
+    | call1 f a =>
+      simp only [exec] at hex
+      simp only [compS, compE, withMode] at hp ⊢
+      cases hx : evalE fuel P env a with
+      | ok xa =>
+        rw [hx] at hex
+        simp only at hex
+        cases hc : callF2 fuel P f [xa] with
+        | ok r =>
+          obtain ⟨v, w⟩ := r
+          rw [hc] at hex
+          simp only [declare2] at hex
+          cases hex
+          have ra := (ihE st.scopes env) a .val st.nl σ xa hx hp.left.left.left.left hrel hdep'
+          simp only [Post] at ra
+          exact define2_post (vs := [xa]) htab ihC2 hp (by simpa using ra) hc hdep' hrel (hwf' _) (hcnt2 _)
+        | panic => rw [hc] at hex; simp [declare2] at hex
+        | overflow => rw [hc] at hex; simp [declare2] at hex
+        | stuck => rw [hc] at hex; simp [declare2] at hex
+        | timeout => rw [hc] at hex; simp [declare2] at hex
+      | panic => rw [hx] at hex; simp at hex
+      | overflow => rw [hx] at hex; simp at hex
+      | stuck => rw [hx] at hex; simp at hex
+      | timeout => rw [hx] at hex; simp at hex
+    | call2 f a b =>
+      simp only [exec] at hex
+      simp only [compS, compE, withMode, emitReverse] at hp ⊢
+      cases hx : evalE fuel P env a with
+      | ok xa =>
+        rw [hx] at hex
+        simp only at hex
+        cases hy : evalE fuel P env b with
+        | ok yb =>
+          rw [hy] at hex
+          simp only at hex
+          cases hc : callF2 fuel P f [xa, yb] with
+          | ok r =>
+            obtain ⟨v, w⟩ := r
+            rw [hc] at hex
+            simp only [declare2] at hex
+            cases hex
+            rcases hca : compE cx st.scopes a .val st.nl with ⟨ca, nl1⟩
+            rcases hcb : compE cx st.scopes b .val nl1 with ⟨cb, nl2⟩
+            simp only [hca, hcb] at hp ⊢
+            have hpa : Placed C σ.pc ca := hp.left.left.left.left.left.left
+            have ra := (ihE st.scopes env) a .val st.nl σ xa hx (by rw [hca]; exact hpa) hrel hdep'
+            rw [hca] at ra
+            simp only [Post] at ra
+            have hpb : Placed C (σ.pc + ca.length) cb := hp.left.left.left.left.left.right
+            have rb := (ihE st.scopes env) b .val nl1 { σ with pc := σ.pc + ca.length, stack := xa :: σ.stack } yb hy
+              (by rw [hcb]; exact hpb) hrel hdep'
+            rw [hcb] at rb
+            simp only [Post] at rb
+            have hsw := run_data (C := C) (σ := { σ with pc := σ.pc + ca.length + cb.length, stack := yb :: xa :: σ.stack })
+              (op := .swap) (stk := xa :: yb :: σ.stack) (loc := σ.locals) (ar := σ.args)
+              ((hp.left.left.left.left.right.cast (by simp [Nat.add_assoc])).head) rfl (by simp [stepData])
+            have hr : Reach C σ { σ with pc := σ.pc + (ca ++ cb ++ [Item.ins Op.swap]).length, stack := [xa, yb] ++ σ.stack } := by
+              refine ra.trans (rb.trans (hsw.trans ?_))
+              simp [Nat.add_assoc]
+              exact Reach.refl _ _
+            exact define2_post (c := ca ++ cb ++ [Item.ins Op.swap]) (vs := [xa, yb]) htab ihC2 hp hr hc hdep' hrel (hwf' _) (hcnt2 _)
+          | panic => rw [hc] at hex; simp [declare2] at hex
+          | overflow => rw [hc] at hex; simp [declare2] at hex
+          | stuck => rw [hc] at hex; simp [declare2] at hex
+          | timeout => rw [hc] at hex; simp [declare2] at hex
+        | panic => rw [hy] at hex; simp at hex
+        | overflow => rw [hy] at hex; simp at hex
+        | stuck => rw [hy] at hex; simp at hex
+        | timeout => rw [hy] at hex; simp at hex
+      | panic => rw [hx] at hex; simp at hex
+      | overflow => rw [hx] at hex; simp at hex
+      | stuck => rw [hx] at hex; simp at hex
+      | timeout => rw [hx] at hex; simp at hex
+    | _ => simp [Allowed, IsCall2] at hal
   | brk =>
     simp only [Allowed] at hal
     simp only [exec] at hex
@@ -2095,6 +2298,8 @@ theorem stmtFOK_succ (P : Prog) (C : Code) (cx : Ctx) (fuel : Nat)
     | panicS e => exact hal.elim
     | ite c t k e => exact hal.elim
     | ret e => exact hal.elim
+    | ret2 e1 e2 => exact hal.elim
+    | define2 x y e => exact hal.elim
     | brk => exact hal.elim
     | cont => exact hal.elim
     | block b => exact hal.elim
